@@ -12,17 +12,10 @@ import (
 // importSrc calls gta on the source code for the package identified by
 // importPath. rPath is the relative path to the directory containing the source
 // code for the package. It can also be "main" as a special value.
-func (interp *Interpreter) importSrc(rPath, importPath string, skipTest bool) (string, error) {
+func (interp *Interpreter) importSrc(rPath, importPath string, skipTest bool) (string, string, error) {
 	var dir string
 	var err error
-
-	if interp.srcPkg[importPath] != nil {
-		name, ok := interp.pkgNames[importPath]
-		if !ok {
-			return "", fmt.Errorf("inconsistent knowledge about %s", importPath)
-		}
-		return name, nil
-	}
+	pkgPath := importPath
 
 	// For relative import paths in the form "./xxx" or "../xxx", the initial
 	// base path is the directory of the interpreter input file, or "." if no file
@@ -44,22 +37,33 @@ func (interp *Interpreter) importSrc(rPath, importPath string, skipTest bool) (s
 		if dir, rPath, err = interp.pkgDir(interp.context.GOPATH, rPath, importPath); err != nil {
 			// Try again, assuming a root dir at the source location.
 			if rPath, err = interp.rootFromSourceLocation(); err != nil {
-				return "", err
+				return "", "", err
 			}
 			if dir, rPath, err = interp.pkgDir(interp.context.GOPATH, rPath, importPath); err != nil {
-				return "", err
+				return "", "", err
 			}
 		}
+		// A package is identified by its location rather than by its import path, which may
+		// resolve to different vendor directories depending on the importer.
+		pkgPath = filepath.Join(rPath, importPath)
 	}
 
-	if interp.rdir[importPath] {
-		return "", fmt.Errorf("import cycle not allowed\n\timports %s", importPath)
+	if interp.srcPkg[pkgPath] != nil {
+		name, ok := interp.pkgNames[pkgPath]
+		if !ok {
+			return "", "", fmt.Errorf("inconsistent knowledge about %s", importPath)
+		}
+		return name, pkgPath, nil
 	}
-	interp.rdir[importPath] = true
+
+	if interp.rdir[pkgPath] {
+		return "", "", fmt.Errorf("import cycle not allowed\n\timports %s", importPath)
+	}
+	interp.rdir[pkgPath] = true
 
 	files, err := fs.ReadDir(interp.opt.filesystem, dir)
 	if err != nil {
-		return "", err
+		return "", "", err
 	}
 
 	var initNodes []*node
@@ -79,12 +83,12 @@ func (interp *Interpreter) importSrc(rPath, importPath string, skipTest bool) (s
 		name = filepath.Join(dir, name)
 		var buf []byte
 		if buf, err = fs.ReadFile(interp.opt.filesystem, name); err != nil {
-			return "", err
+			return "", "", err
 		}
 
 		n, err := interp.parse(string(buf), name, false)
 		if err != nil {
-			return "", err
+			return "", "", err
 		}
 		if n == nil {
 			continue
@@ -92,7 +96,7 @@ func (interp *Interpreter) importSrc(rPath, importPath string, skipTest bool) (s
 
 		var pname string
 		if pname, root, err = interp.ast(n); err != nil {
-			return "", err
+			return "", "", err
 		}
 		if root == nil {
 			continue
@@ -108,31 +112,31 @@ func (interp *Interpreter) importSrc(rPath, importPath string, skipTest bool) (s
 		if pkgName == "" {
 			pkgName = pname
 		} else if pkgName != pname && skipTest {
-			return "", fmt.Errorf("found packages %s and %s in %s", pkgName, pname, dir)
+			return "", "", fmt.Errorf("found packages %s and %s in %s", pkgName, pname, dir)
 		}
 		rootNodes = append(rootNodes, root)
 
 		subRPath := effectivePkg(rPath, importPath)
 		var list []*node
-		list, err = interp.gta(root, subRPath, importPath, pkgName)
+		list, err = interp.gta(root, subRPath, pkgPath, pkgName)
 		if err != nil {
-			return "", err
+			return "", "", err
 		}
 		revisit[subRPath] = append(revisit[subRPath], list...)
 	}
 
 	// Revisit incomplete nodes where GTA could not complete.
 	for _, nodes := range revisit {
-		if err = interp.gtaRetry(nodes, importPath, pkgName); err != nil {
-			return "", err
+		if err = interp.gtaRetry(nodes, pkgPath, pkgName); err != nil {
+			return "", "", err
 		}
 	}
 
 	// Generate control flow graphs.
 	for _, root := range rootNodes {
 		var nodes []*node
-		if nodes, err = interp.cfg(root, nil, importPath, pkgName); err != nil {
-			return "", err
+		if nodes, err = interp.cfg(root, nil, pkgPath, pkgName); err != nil {
+			return "", "", err
 		}
 		initNodes = append(initNodes, nodes...)
 	}
@@ -140,14 +144,14 @@ func (interp *Interpreter) importSrc(rPath, importPath string, skipTest bool) (s
 	// Register source package in the interpreter. The package contains only
 	// the global symbols in the package scope.
 	interp.mutex.Lock()
-	gs := interp.scopes[importPath]
+	gs := interp.scopes[pkgPath]
 	if gs == nil {
 		interp.mutex.Unlock()
 		// A nil scope means that no even an empty package is created from source.
-		return "", fmt.Errorf("no Go files in %s", dir)
+		return "", "", fmt.Errorf("no Go files in %s", dir)
 	}
-	interp.srcPkg[importPath] = gs.sym
-	interp.pkgNames[importPath] = pkgName
+	interp.srcPkg[pkgPath] = gs.sym
+	interp.pkgNames[pkgPath] = pkgName
 
 	interp.frame.mutex.Lock()
 	interp.resizeFrame()
@@ -157,7 +161,7 @@ func (interp *Interpreter) importSrc(rPath, importPath string, skipTest bool) (s
 	// Once all package sources have been parsed, execute entry points then init functions.
 	for _, n := range rootNodes {
 		if err = genRun(n); err != nil {
-			return "", err
+			return "", "", err
 		}
 		interp.run(n, nil)
 	}
@@ -165,7 +169,7 @@ func (interp *Interpreter) importSrc(rPath, importPath string, skipTest bool) (s
 	// Wire and execute global vars in global scope gs.
 	n, err := genGlobalVars(rootNodes, gs)
 	if err != nil {
-		return "", err
+		return "", "", err
 	}
 	interp.run(n, nil)
 
@@ -178,7 +182,7 @@ func (interp *Interpreter) importSrc(rPath, importPath string, skipTest bool) (s
 		interp.run(n, interp.frame)
 	}
 
-	return pkgName, nil
+	return pkgName, pkgPath, nil
 }
 
 // rootFromSourceLocation returns the path to the directory containing the input
